@@ -17,6 +17,7 @@ import (
 
 type childRec struct {
 	E string `json:"ev"`
+	B int    `json:"backlog,omitempty"` // the last B updates piled up in front of the strategy (0: handed over one by one)
 	runOut
 }
 
@@ -82,6 +83,13 @@ func checkC17(c *vx.Ctx) {
 	// absorbBad folds a successor with violations or a harness error into the evidence (vx keeps the shortest witness per signature).
 	absorbBad := func(parent []string, ch childRec) {
 		job := vx.Job{Exec: "c17run", Hist: childHist(parent, ch.E), Args: args}
+		if ch.B > 0 {
+			a2 := map[string]string{"backlog": fmt.Sprint(ch.B)}
+			for k, v := range args {
+				a2[k] = v
+			}
+			job.Args = a2
+		}
 		c.Absorb(job, vx.Result{Key: ch.Key, Viol: ch.Viol, HarnessErr: ch.HarnessErr})
 	}
 
